@@ -149,9 +149,20 @@ def make_scenarios(prop, tier, seed):
             sc["probes"] = {"c13": 1000 + i * 37 + seed, "shift": 0}
             if (i // 5) % 3 < 2:
                 sc["seed"] = 0
-        elif prop != "C13" and sc["probes"].get("c13"):
+        if prop != "C13" and sc["probes"].get("c13"):
             sc["probes"]["c13"] = 0   # twins cost seconds each: only the C13 check pays for them
+        if prop == "C17" and i % 3 == 0:
+            sc["probes"]["c17"] = 500 + i
+        if prop in ("C16", "C17"):
+            sc["max_steps"] = 5      # these checks are about compilation, not about the episode
         out.append(sc)
+    if prop == "C16":
+        # the malformed stream: one defect per document, every class in turn
+        for i in range(n // 2):
+            m = gen.gen_malformed(seed * 7919 + i, gen.MALFORMED[i % len(gen.MALFORMED)])
+            if m is not None:
+                m["props"] = [prop]
+                out.append(m)
     return out
 
 
